@@ -141,6 +141,14 @@ def _run_one(m):
                 res = json.loads(line[6:])
         if res is None:
             return dict(m, status='error', detail=(p.stderr or p.stdout)[-300:])
+        # obligations recorded as known findings are refuted on the unchanged tree as well: not the mutant's doing
+        from pyvc.driver import load_findings
+        kf = load_findings()['findings']
+
+        def known(target, name):
+            return any(f.get('function') in (None, target) and fnmatch.fnmatchcase(name, f['obligation']) for f in kf)
+        for r in res:
+            r['bad'] = [[n, v] for n, v in r['bad'] if not known(r['target'], n)]
         refuted = [n for r in res for n, v in r['bad'] if v == 'refuted']
         errors = [r['error'].splitlines()[0] for r in res if r['error']]
         if m['expect'].startswith('killed-by:'):
